@@ -153,7 +153,7 @@ PROPS = {
     "C01": dict(lean_modules=["HW.Props.C01"], facts=True, streams=[_SCHED_STREAM, _LIFE_STREAM, dict(name="ctxapi", pkg="actor", test="TestVerifCtxAPI")],
                 rule=_SCHED_RULE + _LIFE_RULE + " || ctxapi: one actor makes 1-300 (sometimes 2000-5000) successive Respond / Context.Send / Forward calls to one target inside one Receive (inbox 1/2/3/1024): exact expected log", assumptions=_SCHED_ASSUME,
                 spec_relevant=r"FAIL:(\S*C01|\S*C03|harness)"),
-    "C02": dict(lean_modules=["HW.Props.C02"], facts=True, streams=[_SCHED_STREAM, _PROC_STREAM, dict(name="tree", pkg="actor", test="TestVerifTree", shrink_key="ops", timeout=2400, timeout_thorough=3400)],
+    "C02": dict(lean_modules=["HW.Props.C02"], facts=True, streams=[_SCHED_STREAM, _PROC_STREAM, _LIFE_STREAM, dict(name="tree", pkg="actor", test="TestVerifTree", shrink_key="ops", timeout=2400, timeout_thorough=3400)],
                 rule=_SCHED_RULE + " || " + _PROC_RULE + " || tree: every tree actor counts the Receive calls in progress; shutdowns of a parent while a child is held inside Receive (tp) must not overlap its Stopped with that call",
                 assumptions=_SCHED_ASSUME + ["'no inbox.Start after inbox.Stop' is checked on the process stream (HW.Proc.noReopen)"],
                 spec_relevant=r"FAIL:(\S*C02|harness)"),
@@ -284,7 +284,7 @@ MANIFEST_TEXT = {
              "a single pill is cancelled exactly once even if the actor crashes while draining (partial). The full claim 'every pill is cancelled' is FALSE for the code: the negation is "
              "proved with a concrete witness and the witness is replayed on the implementation on every run (known finding KF-D4). Tied to the code by exact trace comparison.",
         design_ref="DESIGN.md section 4, C04-C07; section 5 (D4)",
-        note="Partial: pills the actor never gets to handle are a known finding; unknown/stopped PID (registry miss => dead letter + immediate cancel) is decision logic of Engine.sendPoisonPill covered by C09's stream; parent-initiated shutdown is C08.",
+        note="Partial: pills the actor never gets to handle are a known finding; unknown/stopped/nil PID (registry miss => one dead letter + a context done at once) is stated as decision logic (HW.C07.unknown_pid_done_at_once / known_pid_queued over Engine.poison) and tied to Engine.sendPoisonPill by the engine stream's poi operations; parent-initiated shutdown is C08.",
         technique="Lean 4 proof of cancel-ordering acceptor + proved counter-example for the full statement + trace-level differential correspondence",
     ),
     "C13": dict(
